@@ -172,7 +172,7 @@ fn strat(t: Tier) -> proptest::strategy::BoxedStrategy<ValidCase> {
 
 pub fn def() -> PropertyDef {
     PropertyDef {
-        fuzz_targets: &[],
+        fuzz_targets: &["c01_scenario"],
         id: "C15",
         level: "exploration",
         rule: "A/V histories under four submission orders (all video first, merged, all audio before later video, bursts), with cross-track \
